@@ -182,9 +182,12 @@ pub trait Rec: Sized + 'static {
     /// (size_of, align_of) of every generated variant type at this capacity
     fn layouts() -> Vec<(usize, usize)>;
     fn variant(&self) -> usize;
-    fn new_full(v: usize, src: &mut Src) -> Self;
-    /// mandatory fields only
-    fn new_uninit(v: usize, src: &mut Src) -> Self;
+    /// `via_from`: through the generated `From<UnpackedRecordN>` impl instead of `new`
+    fn new_full(v: usize, src: &mut Src, via_from: bool) -> Self;
+    /// mandatory fields only (`new_uninit` or `From<UnpackedUninitRecordN>`)
+    fn new_uninit(v: usize, src: &mut Src, via_from: bool) -> Self;
+    /// (size_of, align_of) of the `RecordN` aliases ("optimized capacity"), one per variant
+    fn alias_layouts() -> Vec<(usize, usize)>;
     /// through the `&self` accessors; `skip[datum]` = do not touch (never written)
     fn observe(&self, skip: &[bool], out: &mut ObsList);
     /// through the `&mut self` accessors
